@@ -12,7 +12,9 @@ pub mod c07;
 pub mod c08;
 pub mod c09;
 pub mod c10;
+pub mod c11;
 pub mod c12;
+pub mod c13;
 pub mod c14;
 pub mod c15;
 pub mod c16;
@@ -30,7 +32,9 @@ pub fn run(id: &str, tier: Tier) -> i32 {
         "C08" => { let r = Run::new("C08", tier); c08::run(&r); r }
         "C09" => { let r = Run::new("C09", tier); c09::run(&r); r }
         "C10" => { let r = Run::new("C10", tier); c10::run(&r); r }
+        "C11" => { let r = Run::new("C11", tier); start_watchdog("C11"); c11::run(&r); r }
         "C12" => { let r = Run::new("C12", tier); start_watchdog("C12"); c12::run(&r); r }
+        "C13" => { let r = Run::new("C13", tier); c13::run(&r); r }
         "C14" => { let r = Run::new("C14", tier); c14::run(&r); r }
         "C15" => { let r = Run::new("C15", tier); c15::run(&r); r }
         "C16" => { let r = Run::new("C16", tier); c16::run(&r); r }
@@ -70,6 +74,8 @@ pub fn replay_case(id: &str, op: &str, case: &serde_json::Value) -> Result<(), S
         (_, "parse_sequence") | (_, "lexical_sequence") => c08::replay_case(case),
         (_, "mutator_history") => c17::replay_case(case),
         (_, "spacing") => c09::replay_case(case),
+        (_, "truth_floats") | (_, "budget_floats") | (_, "evident_number") => c13::replay_case(case),
+        (_, "ascii_lexicon") | (_, "grammar_conformance_lexical") | (_, "grammar_conformance_enum") => c11::replay_case(case),
         (_, "meaning") => c10::replay_case(case),
         (_, "pipelines_agree") | (_, "vocab_table") => c03::replay_case(case),
         _ => Err(format!("no replayer for property {id} op {op:?}")),
